@@ -30,6 +30,70 @@ def db(name):
     return _DB[name]
 
 
+_DB2 = {}
+
+
+def db2(name):
+    """a second database object per worker whose request order is: explicit exclusion list first, plain second"""
+    if name not in _DB2:
+        from cirbo.circuits_db.data_utils import DEFAULT_AIG_DB_PATH, DEFAULT_XAIG_DB_PATH
+        from cirbo.circuits_db.db import CircuitsDatabase
+
+        d = CircuitsDatabase(DEFAULT_AIG_DB_PATH if name == 'aig' else DEFAULT_XAIG_DB_PATH)
+        d.open()
+        _DB2[name] = d
+    return _DB2[name]
+
+
+def manydc_patterns(name, limit):
+    """three-input first outputs '*b1..b7' whose completion with a leading 1 is stored with strictly fewer gates
+    than the one with a leading 0 (largest gaps first)"""
+    d = db(name)
+    out = []
+    for bits in itertools.product('01', repeat=7):
+        rest = ''.join(bits)
+        sizes = []
+        for lead in '01':
+            ent = d.get_by_raw_truth_table([[ch == '1' for ch in lead + rest]])
+            sizes.append(None if ent is None else ent.gates_number())
+        if None not in sizes and sizes[1] < sizes[0]:
+            out.append((sizes[0] - sizes[1], rest, min(sizes)))
+    out.sort(key=lambda x: (-x[0], x[1]))
+    return out[:limit]
+
+
+def check_manydc(name, rest, bound, acc):
+    """17 don't-cares (two outputs entirely free, one free cell in the first): far more than 2^16 completions.  The
+    answer must agree with the defined cells and be no larger than the stored circuit of the completion in which
+    the free outputs copy the first one."""
+    from cirbo.core.logic import DontCare
+
+    d = db(name)
+    tabs = ('*' + rest, '*' * 8, '*' * 8)
+    ttm = [[DontCare if ch == '*' else ch == '1' for ch in t] for t in tabs]
+    case = {'db': name, 'n': 3, 'model': list(tabs)}
+    acc.states += 1
+    acc.traces += 1
+    acc.transitions += 1
+    ok, c = guarded(acc, 'model-lookup', case, d.get_by_raw_truth_table_model, ttm)
+    if not ok:
+        return
+    if c is None:
+        acc.violation('model-lookup/none-although-a-completion-is-stored', case, '')
+        return
+    net = refmodel.abstract(c)
+    if len(net.inputs) != 3 or len(net.outputs) != 3:
+        acc.violation('model-lookup/shape', case, '')
+        return
+    got = refmodel.tt_str(net.out_tables()[0], 3)
+    if any(ch != '*' and ch != g for ch, g in zip(tabs[0], got)):
+        acc.violation('model-lookup/disagrees-with-defined-entry', case, got)
+        return
+    if c.gates_number() > bound:
+        acc.violation('model-lookup/not-minimal', case, f'returned {c.gates_number()} gates; the completion whose free outputs copy the first one is stored with {bound}')
+    acc.outcome('model', (name, 3, 3, 'manydc', c.gates_number()))
+
+
 def plan(tier):
     t = []
     for name in ('aig', 'xaig'):
@@ -56,6 +120,8 @@ def plan(tier):
         for f in range(27):
             t.append({'kind': 'model', 'db': name, 'n': 3, 'm': 1, 'first': f})
         t.append({'kind': 'misc', 'db': name})
+        for i in range(4 if tier == 'quick' else 24):
+            t.append({'kind': 'manydc', 'db': name, 'i': i})
     return t
 
 
@@ -67,7 +133,7 @@ def describe(tier):
         'defined entries and is no larger than the stored circuit of any completion. distinct = distinct '
         '(db, n, m, gate count) outcomes.',
         'bounds': {
-            'quick': 'all 699,448 entries; lookups (2,1..4),(3,1),(3,2); identical request repeated after editing the returned circuit for (2,1),(2,2),(3,1) and the (2,1) models; models (2,1),(2,2),(3,1)',
+            'quick': 'all 699,448 entries; 4 (thorough 24) requests with 17 don\'t-cares (more than 2^16 completions); lookups (2,1..4),(3,1),(3,2); identical request repeated after editing the returned circuit for (2,1),(2,2),(3,1) and the (2,1) models; models (2,1),(2,2),(3,1)',
             'thorough': '+ lookups (2,5), (3,3): 16.8M tables per database',
         }[tier],
         'exhaustive': True,
@@ -295,6 +361,21 @@ def check_model_one(name, n, tabs, acc):
                     best2 = g if best2 is None or g < best2 else best2
             if best2 is not None and c2.gates_number(excl) > best2:
                 acc.violation('model-lookup/not-minimal-under-explicit-exclusion-list', case, f'returned {c2.gates_number(excl)}, best {best2}, exclusion_list={excl!r}')
+        # request order must not matter: the plain request again, after the ones with an explicit exclusion list ...
+        acc.transitions += 2
+        ok, c3 = guarded(acc, 'model-lookup', case, d.get_by_raw_truth_table_model, [list(r) for r in ttm])
+        if ok and c3 is not None and best is not None and c3.gates_number() > best:
+            acc.violation('model-lookup/not-minimal-after-a-request-with-an-explicit-exclusion-list', case, f'returned {c3.gates_number()} gates, best completion has {best}')
+        # ... and on a database object that saw the explicit-list request FIRST
+        d2 = db2(name)
+        try:
+            d2.get_by_raw_truth_table_model([list(r) for r in ttm], [])
+            c4 = d2.get_by_raw_truth_table_model([list(r) for r in ttm])
+        except Exception as e:  # noqa: BLE001
+            acc.violation(f'model-lookup/raises-{type(e).__name__}', case, repr(e)[:200])
+            return
+        if c4 is not None and best is not None and c4.gates_number() > best:
+            acc.violation('model-lookup/not-minimal-after-a-request-with-an-explicit-exclusion-list', case, f'fresh database: explicit list first, then plain: {c4.gates_number()} gates, best {best}')
 
 
 def check_model(task, acc):
@@ -340,6 +421,12 @@ def run_task(task, acc):
         return check_entries(task['db'], task['chunk'], acc)
     if kind == 'lookup':
         return check_lookup(task, acc)
+    if kind == 'manydc':
+        pats = manydc_patterns(task['db'], task['i'] + 1)
+        if task['i'] < len(pats):
+            _, rest, bound = pats[task['i']]
+            check_manydc(task['db'], rest, bound, acc)
+        return
     if kind == 'model':
         return check_model(task, acc)
     return check_misc(task['db'], acc)
@@ -351,6 +438,11 @@ def replay(case, acc):
     if 'tables' in case:
         vs = tuple(refmodel.tt_from_rows([ch == '1' for ch in t]) for t in case['tables'])
         return check_lookup_one(case['db'], case['n'], vs, acc, case.get('rows_as_tuples', False))
+    if 'model' in case and len(case['model']) == 3 and case['model'][1] == '*' * 8:
+        rest = case['model'][0][1:]
+        d = db(case['db'])
+        bound = min(d.get_by_raw_truth_table([[ch == '1' for ch in lead + rest]]).gates_number() for lead in '01')
+        return check_manydc(case['db'], rest, bound, acc)
     if 'model' in case:
         return check_model_one(case['db'], case['n'], tuple(case['model']), acc)
     if 'key' in case:
